@@ -11,7 +11,7 @@ import gen_actors as ga
 
 STATE_FIELDS = {
     "C06": ["enabled", "trans", "init", "next_steps"],
-    "C07": ["trans", "net_len", "iter_deliv", "iter_all", "canonical_net"],
+    "C07": ["trans", "init", "net_len", "iter_deliv", "iter_all", "canonical_net"],
     "C09": ["enabled", "trans", "crash_budget"],
     "C15": ["enabled", "trans", "init", "next_steps"],
     "C04": ["canonical_net"],
